@@ -104,6 +104,11 @@ impl FileTransfer {
 
         if self.state == FileTransferState::Started || self.state == FileTransferState::MissingStart
         {
+            if package_nr < self.next_package {
+                // repetition of a package that was already accepted (e.g. the same log merged
+                // from two sources): tolerate it, it neither counts nor carries new data
+                return false;
+            }
             self.recvd_packages += 1;
             if package_nr == self.next_package {
                 // package contains data?
